@@ -13,16 +13,13 @@
 enum { UF_INT = 0, UF_RAT = 1, UF_SYM = 2, UF_OPQ = 3, UF_CON = 4, UF_NANT = 5 };
 #define UF_SMALL 4096
 #define VR_INSUFFICIENT(msg) do { __CPROVER_assert(0, "abstraction insufficient: " msg); __CPROVER_assume(0); } while (0)
-int8_t   __CPROVER_uninterpreted_uf_cmp(uint64_t, uint64_t);
 /* Arithmetic results are Herbrand terms: the handle of op(a, b) is a fixed mixing function of (op, a, b), so equal operands
  * give equal results and (up to collisions of a 60-bit hash) different operands give different ones -- the free-term
  * interpretation, which validates exactly the equalities that hold under every interpretation of the operators.  (True
  * uninterpreted functions cost one consistency constraint per pair of applications; the sequentialised code applies them
  * thousands of times and the propositional encoding ran out of memory.)  Only and/xor/rotate: cheap to bit-blast. */
-static inline uint64_t uf_rotl(uint64_t x, unsigned k){ return (x << k) | (x >> (64 - k)); }
-static inline uint64_t uf_mix(uint64_t op, uint64_t a, uint64_t b){
-  return uf_rotl(a, 13) ^ uf_rotl(b, 29) ^ (uf_rotl(a, 41) & uf_rotl(b, 3)) ^ (uf_rotl(a, 7) | uf_rotl(b, 53)) ^ (op * 0x9e3779b97f4a7c15ULL);
-}
+#define UF_ROTL(x, k) (((uint64_t)(x) << (k)) | ((uint64_t)(x) >> (64 - (k))))
+#define uf_mix(op, a, b) (UF_ROTL(a, 13) ^ UF_ROTL(b, 29) ^ (UF_ROTL(a, 41) & UF_ROTL(b, 3)) ^ (UF_ROTL(a, 7) | UF_ROTL(b, 53)) ^ ((uint64_t)(op) * 0x9e3779b97f4a7c15ULL))
 #define __CPROVER_uninterpreted_uf_add(a, b) uf_mix(1, (a), (b))
 #define __CPROVER_uninterpreted_uf_sub(a, b) uf_mix(2, (a), (b))
 #define __CPROVER_uninterpreted_uf_mul(a, b) uf_mix(3, (a), (b))
@@ -55,22 +52,11 @@ static inline vr32 vr_const32(uint32_t b){ return b; }
 #define UF_BIN(n, exactexpr) static inline vr64 vr_##n##64(vr64 a, vr64 b){ \
     if (uf_is_int(a) && uf_is_int(b)) { int64_t r = exactexpr; if (uf_smallint(r)) return uf_int(r); } \
     return UF_MK(UF_OPQ, __CPROVER_uninterpreted_uf_##n(a, b)); }
-static inline vr64 uf_opq_add(vr64 a, vr64 b){ return UF_MK(UF_OPQ, __CPROVER_uninterpreted_uf_add(a, b)); }
-static inline vr64 vr_fadd64(vr64 a, vr64 b){
-  if (uf_is_int(a) && uf_is_int(b)) { int64_t r = uf_ival(a) + uf_ival(b); if (uf_smallint(r)) return uf_int(r); }
-  return uf_opq_add(a, b);
-}
-static inline vr64 vr_fsub64(vr64 a, vr64 b){
-  if (uf_is_int(a) && uf_is_int(b)) { int64_t r = uf_ival(a) - uf_ival(b); if (uf_smallint(r)) return uf_int(r); }
-  if (b == 0) return a;                       /* x - (+0.0) == x exactly */
-  return UF_MK(UF_OPQ, __CPROVER_uninterpreted_uf_sub(a, b));
-}
-static inline vr64 vr_fmul64(vr64 a, vr64 b){
-  if (uf_is_int(a) && uf_is_int(b)) { int64_t r = uf_ival(a) * uf_ival(b); if (uf_smallint(r)) return uf_int(r); }
-  if (uf_is_int(a) && uf_ival(a) == 1) return b;   /* 1.0 * x == x exactly */
-  if (uf_is_int(b) && uf_ival(b) == 1) return a;
-  return UF_MK(UF_OPQ, __CPROVER_uninterpreted_uf_mul(a, b));
-}
+/* + - * are always free terms: nothing in the checked code converts a sum or product back to an integer, and keeping them
+ * exact for small integers costs two symbolic case splits per operation in every re-executed segment */
+static inline vr64 vr_fadd64(vr64 a, vr64 b){ return UF_MK(UF_OPQ, __CPROVER_uninterpreted_uf_add(a, b)); }
+static inline vr64 vr_fsub64(vr64 a, vr64 b){ return UF_MK(UF_OPQ, __CPROVER_uninterpreted_uf_sub(a, b)); }
+static inline vr64 vr_fmul64(vr64 a, vr64 b){ return UF_MK(UF_OPQ, __CPROVER_uninterpreted_uf_mul(a, b)); }
 static inline vr64 vr_fdiv64(vr64 a, vr64 b){
   if (uf_is_int(a) && uf_is_int(b) && uf_ival(b) > 0 && uf_ival(b) < 32768 && uf_ival(a) > -32768 && uf_ival(a) < 32768) {
     if (uf_ival(a) % uf_ival(b) == 0) return uf_int(uf_ival(a) / uf_ival(b));
@@ -85,6 +71,10 @@ UF_NO32(fadd) UF_NO32(fsub) UF_NO32(fmul) UF_NO32(fdiv) UF_NO32(frem)
 static inline vr32 vr_fneg32(vr32 a){ (void)a; VR_INSUFFICIENT("single-precision arithmetic"); return 0; }
 
 /* three-way comparison: exact on INT/RAT, otherwise uninterpreted on the ordered handle pair */
+/* three-way comparison: exact on INT/RAT, otherwise an uninterpreted function of the ordered handle pair (antisymmetric and
+ * reflexive by construction).  An oracle table indexed by a mix of the pair was tried instead (to avoid the quadratic number of
+ * consistency constraints): the symbolic index into a 4096-entry array made every instance more than ten times slower. */
+int8_t __CPROVER_uninterpreted_uf_cmp(uint64_t, uint64_t);
 static inline int uf_cmp3(vr64 a, vr64 b){
   if (a == b) return 0;
   if (uf_is_exact(a) && uf_is_exact(b)) { int64_t l = uf_num(a) * uf_den(b), r = uf_num(b) * uf_den(a); return l < r ? -1 : (l > r ? 1 : 0); }
